@@ -335,8 +335,8 @@ def handleBulk : Handler := fun inp out => do
   -- result (Data and LogID are built together): ref = id in LogID
   let refsOk := gResults.all fun g =>
     g.cls ≠ "ok" || g.ref = -1 || g.ref = (g.logID % 1000 : Nat)
-  let mTop := if http && via = "stream" && mErrStr = "ok" then "VALIDATION:other:EOF" else
-              if http && mErrStr = "conflict" then "VALIDATION" else
+  -- (before /repo commit 0a80472 the JSON-stream handler reported io.EOF here: "VALIDATION:other:EOF")
+  let mTop := if http && mErrStr = "conflict" then "VALIDATION" else
               if http && mErrStr ≠ "ok" then "INTERNAL" else ""
   let agree := gPanic = "" && schedValid && clientAgree && refsOk &&
     (http || gRunErr = mErrStr) && (!http || gStatus = mStatus) &&
